@@ -47,6 +47,66 @@ def simple_case(entry, doc, exts, pre, strict):
         return "hist F,%s;v,%s,%s,%s" % (snap_arg(pre), strict, hx(b"tgt"), hx(doc))
 
 
+def stage_docs(rng, tier):
+    """documents for the splitter / generate-worker correspondence (model Conc/Splitter.v)"""
+    docs = []
+    n = 400 if tier == "quick" else 12000
+    for _ in range(n):
+        k = rng.random()
+        if k < 0.45:
+            items = gen_forest(rng, max_roots=6, max_nodes=14, max_depth=4)
+            docs.append(spell(items, gen_spelling(rng, items)))
+        elif k < 0.8:
+            # line soup: every kind of row the splitter and the parser distinguish
+            rows = []
+            for _ in range(rng.randint(0, 12)):
+                ind = rng.choice([b"", b"", b" ", b"  ", b"    ", b"\t", b"\t\t", b"   "])
+                sym = rng.choice([b"- ", b"* ", b"+ ", b"# ", b"## ", b"-", b"#", b"", b"-  ", b"-\t", b"x ", b"--", b"- - "])
+                txt = rng.choice([b"a", b"b c", b"", b" ", b"r/s", b"a\r", b"\xc3\xa9", b"- x", b"# y"])
+                rows.append(ind + sym + txt)
+            eol = rng.choice([b"\n", b"\n", b"\r\n", b"\r\r\n"])
+            docs.append(eol.join(rows) + (eol if rng.random() < 0.7 else b""))
+        else:
+            items = gen_forest(rng, max_roots=4, max_nodes=10, max_depth=3)
+            from c02 import inject
+            sp = gen_spelling(rng, items)
+            lines = [r for r, _, _ in spell_lines(items, sp)]
+            if lines:
+                new = inject(rng, lines, rng.randrange(len(lines)), rng.choice(["no_bullet", "empty_text", "jump", "non_multiple"]), sp["unit"])
+                lines = new or lines
+            docs.append(join_lines([(l, False, None) for l in lines], True))
+    docs += [b"", b"\n", b"\n\n- a\n", b"- a", b"x\n- a\n", b"- a\r\r\n  - b\n", b"- a\n" + b"- " + b"x" * 65534 + b"\n- c\n",
+             b"- a\n  - b\n" + b"- " + b"x" * 65535 + b"\n- c\n"]
+    return docs
+
+
+def stage_correspondence(ck, rng, exe):
+    docs = stage_docs(rng, ck.tier)
+    bf = bf_args(BF_DEFAULT)
+    scases = ["msplit %s" % hx(d) for d in docs]
+    si, _ = run_impl(exe, scases)
+    sm = run_model(scases)
+    broken = None
+    blocks = []
+    for i, d in enumerate(docs):
+        ck.count("stage:split")
+        if si[i] != sm[i]:
+            broken = broken or (scases[i][:2000], si[i][:600], sm[i][:600])
+            continue
+        f = si[i].split(" ")
+        if f[1] != "-":
+            blocks += [b"" if h == "_" else unhx(h) for h in f[1].split(",")]
+    blocks = list(dict.fromkeys(blocks))
+    gcases = ["mgen %s %s" % (bf, hx(b)) for b in blocks]
+    gi, _ = run_impl(exe, gcases)
+    gm = run_model(gcases)
+    for i in range(len(gcases)):
+        ck.count("stage:generate")
+        if gi[i] != gm[i]:
+            broken = broken or (gcases[i][:2000], gi[i][:600], gm[i][:600])
+    return broken
+
+
 def run(ck, rng):
     iok, iinfo = instance_obligation()
     ck.extra["instance"] = iinfo
@@ -183,7 +243,9 @@ def run(ck, rng):
             if tag:
                 rep["finding"] = tag
             ck.violation(rep)
-    return ('instance', iinfo.get('failure', '')) if not iok else None
+    if not iok:
+        return ('instance', iinfo.get('failure', ''))
+    return stage_correspondence(ck, rng, exe)
 
 
 def single_elem_ok(n):
